@@ -144,6 +144,38 @@ impl World {
     }
 }
 
+/// a signed transaction of every type with 0..4 inputs and outputs of assorted slip types (amounts zero, so that
+/// nothing has to exist in the ledger): n encodes type, counts and the slip-type pattern
+fn shaped_tx(n: u64, k: &Key) -> Transaction {
+    use saito_core::core::consensus::slip::SlipType;
+    let types = [TransactionType::Normal, TransactionType::Fee, TransactionType::GoldenTicket, TransactionType::ATR, TransactionType::Vip,
+                 TransactionType::SPV, TransactionType::Issuance, TransactionType::BlockStake, TransactionType::Bound];
+    let stypes = [SlipType::Normal, SlipType::Bound, SlipType::ATR, SlipType::BlockStake, SlipType::MinerOutput];
+    let mut t = Transaction::default();
+    t.transaction_type = types[(n % 9) as usize];
+    let nin = (n / 9) % 5;
+    let nout = (n / 45) % 5;
+    let pat = n / 225;
+    t.timestamp = T0 + n;
+    t.data = if t.transaction_type == TransactionType::GoldenTicket { vec![3u8; 97] } else { vec![n as u8; (n % 40) as usize] };
+    for i in 0..nin {
+        let mut s = Slip::default();
+        s.public_key = k.public;
+        s.slip_type = stypes[((pat + i) % 5) as usize];
+        s.block_id = 1 + i;
+        s.slip_index = i as u8;
+        t.add_from_slip(s);
+    }
+    for i in 0..nout {
+        let mut s = Slip::default();
+        s.public_key = k.public;
+        s.slip_type = stypes[((pat + i + 1) % 5) as usize];
+        t.add_to_slip(s);
+    }
+    t.sign(&k.private);
+    t
+}
+
 fn msg_buffer(w: &World, st: &Step, hostile_key: &Key) -> Vec<u8> {
     let k = st.kind.as_str();
     let raw = |tag: u8, payload: Vec<u8>| {
@@ -191,6 +223,7 @@ fn msg_buffer(w: &World, st: &Step, hostile_key: &Key) -> Vec<u8> {
             Message::Transaction(t).serialize()
         }
         "tx_empty" => Message::Transaction(Transaction::default()).serialize(),
+        "tx_shape" => Message::Transaction(shaped_tx(st.n, hostile_key)).serialize(),
         "tx_manyslips" => {
             let mut t = Transaction::default();
             for i in 0..300u64 {
@@ -230,7 +263,7 @@ fn msg_buffer(w: &World, st: &Step, hostile_key: &Key) -> Vec<u8> {
         "hash_known" => Message::BlockHeaderHash(w.blocks[0].hash, 1).serialize(),
         "hash_zero" => Message::BlockHeaderHash([0; 32], 0).serialize(),
         "hash_far" => Message::BlockHeaderHash(hash(&st.n.to_be_bytes()), u64::MAX).serialize(),
-        "hash_unknown" => Message::BlockHeaderHash(hash(&[st.n as u8, 9]), w.blocks.len() as u64 + 1 + st.n % 3).serialize(),
+        "hash_unknown" => Message::BlockHeaderHash(hash(&[st.n as u8, 3, st.conn as u8]), w.blocks.len() as u64 + 1 + st.n % 30).serialize(),
         "hash_next" => {
             let b = &w.blocks[st.blk.min(w.blocks.len() - 1)];
             Message::BlockHeaderHash(b.hash, b.id).serialize()
@@ -320,6 +353,15 @@ fn fetched_inner(w: &World, st: &Step) -> (SaitoHash, u64, Vec<u8>) {
             let b = w.remade(i, |txs| {
                 let fee_at = txs.iter().position(|t| t.transaction_type == TransactionType::Fee).unwrap_or(txs.len());
                 txs.insert(fee_at, w.spare_tx(st.n as usize, Some("phantom_input")));
+            });
+            (b.hash, b.id, ser(&b))
+        }
+        "tx_shape" => {
+            let b = w.remade(i, |txs| {
+                let mut t = shaped_tx(st.n, &key(22));
+                t.generate_hash_for_signature();
+                let fee_at = txs.iter().position(|t| t.transaction_type == TransactionType::Fee).unwrap_or(txs.len());
+                txs.insert(fee_at.min((st.n % 3) as usize), t);
             });
             (b.hash, b.id, ser(&b))
         }
@@ -455,20 +497,27 @@ async fn view(f: &FullNode, hostile_conns: &[u64], w: &World) -> Value {
                        "keys": p.key_list.len()}));
     }
     ps.sort_by_key(|v| v["conn"].as_u64().unwrap());
+    let honest_block = |h: &SaitoHash| w.blocks.iter().any(|b| &b.hash == h);
     let mut queues = vec![];
     for (p, q) in f.routing.blockchain_sync_state.verif_queues() {
         if hostile_conns.contains(&p) || q.is_empty() {
             continue;
         }
-        let items: Vec<Value> = q.iter().map(|(id, h, st, _)| json!([id, hex::encode(&h[0..6]), st])).collect();
+        // wanting a block of the honest chain is never a disturbance (a block that arrives before its parent
+        // makes the node ask for the parent): only other entries are compared
+        let items: Vec<Value> = q.iter().filter(|(_, h, _, _)| !honest_block(h)).map(|(id, h, st, _)| json!([id, hex::encode(&h[0..6]), st])).collect();
+        if items.is_empty() {
+            continue;
+        }
         queues.push(json!({"conn": p, "q": items}));
     }
     let mut pend = vec![];
     for (p, q) in f.routing.blockchain_sync_state.verif_pending() {
-        if hostile_conns.contains(&p) || q.is_empty() {
+        let n = q.iter().filter(|(_, h)| !honest_block(h)).count();
+        if hostile_conns.contains(&p) || n == 0 {
             continue;
         }
-        pend.push(json!({"conn": p, "n": q.len()}));
+        pend.push(json!({"conn": p, "n": n}));
     }
     json!({"tip": hex::encode(&bc.get_latest_block_hash()[0..6]), "tiph": top, "lc": lc,
            "utxo": hex::encode(&hash(&dig)[0..8]), "nutxo": keys.len(),
@@ -478,14 +527,16 @@ async fn view(f: &FullNode, hostile_conns: &[u64], w: &World) -> Value {
 }
 
 /// what the node sent to honest peers during a step
-fn sent_to_honest(ops: &[IoOp], hostile_conns: &[u64]) -> Vec<Value> {
+fn sent_to_honest(ops: &[IoOp], hostile_conns: &[u64], w: &World) -> Vec<Value> {
     let mut v = vec![];
     for op in ops {
         match op {
             IoOp::Send { peer, buf } if !hostile_conns.contains(peer) => {
                 v.push(json!([peer, "send", buf.first().copied().unwrap_or(0)]));
             }
-            IoOp::Fetch { peer, id, .. } if !hostile_conns.contains(peer) => v.push(json!([peer, "fetch", id])),
+            IoOp::Fetch { peer, id, hash, .. } if !hostile_conns.contains(peer) && !w.blocks.iter().any(|b| &b.hash == hash) => {
+                v.push(json!([peer, "fetch", id]))
+            }
             IoOp::Disconnect { peer } if !hostile_conns.contains(peer) => v.push(json!([peer, "disconnect", 0])),
             _ => {}
         }
@@ -560,6 +611,7 @@ fn apply(rt: &tokio::runtime::Runtime, side: &mut Side, w: &World, st: &Step, ho
                     for j in 0..st.n {
                         let buffer = match st.kind.as_str() {
                             "keylist" => Message::KeyListUpdate(vec![hostile_key.public]).serialize(),
+                            "hash" => Message::BlockHeaderHash(hash(&[j as u8, 3, st.conn as u8]), w.blocks.len() as u64 + 1 + j % 30).serialize(),
                             "chal" => Message::HandshakeChallenge(HandshakeChallenge { challenge: hash(&j.to_be_bytes()) }).serialize(),
                             _ => Message::Ping().serialize(),
                         };
@@ -567,8 +619,16 @@ fn apply(rt: &tokio::runtime::Runtime, side: &mut Side, w: &World, st: &Step, ho
                     }
                 }
                 "fetchfail" => {
-                    let b = &w.blocks[st.blk.min(w.blocks.len() - 1)];
-                    f.net(NetworkEvent::BlockFetchFailed { block_hash: b.hash, peer_index: st.conn, block_id: b.id }).await;
+                    if st.kind == "nobody" {
+                        // fetches of the hashes the hostile peer announced (flood kind "hash" / hash_unknown) fail
+                        for j in 0..st.n.max(1) {
+                            f.net(NetworkEvent::BlockFetchFailed { block_hash: hash(&[j as u8, 3, st.conn as u8]), peer_index: st.conn,
+                                                                   block_id: w.blocks.len() as u64 + 1 + j % 30 }).await;
+                        }
+                    } else {
+                        let b = &w.blocks[st.blk.min(w.blocks.len() - 1)];
+                        f.net(NetworkEvent::BlockFetchFailed { block_hash: b.hash, peer_index: st.conn, block_id: b.id }).await;
+                    }
                 }
                 "run" => {
                     f.run(qof(&st.q), HONEST).await;
@@ -615,7 +675,17 @@ fn main() {
         let scn: Scenario = serde_json::from_str(&line).expect("scenario");
         let reuse = matches!(&cache, Some((g, hb, n, _)) if *g == scn.g && *hb == scn.hb && *n == scn.chain);
         if !reuse {
-            cache = Some((scn.g, scn.hb, scn.chain, World::new(&rt, &scn)));
+            // the honest chain is produced with the real block producer: a panic there is a finding, not a tool error
+            match guarded(|| World::new(&rt, &scn)) {
+                Ok(wnew) => cache = Some((scn.g, scn.hb, scn.chain, wnew)),
+                Err(p) => {
+                    trace.emit(json!({"ev": "Step", "last": true, "complete": false, "chain": scn.chain, "scn": k, "i": 0, "op": "build", "conn": 0,
+                        "kind": "honest-chain", "hostile": false, "res": format!("Panic:{}", p), "resb": "skipped", "va": {}, "vb": {}, "sa": [], "sb": [],
+                        "pa": [0, 0, 0], "pb": [0, 0, 0]}));
+                    count += 1;
+                    continue;
+                }
+            }
         }
         let w = &cache.as_ref().unwrap().3;
         let mut a = new_side(&rt, w, &scn, "A");
@@ -648,7 +718,7 @@ fn main() {
                 };
             trace.emit(json!({"ev": "Step", "last": last, "complete": complete, "chain": scn.chain, "scn": k, "i": i + 1, "op": st.op, "conn": st.conn, "kind": st.kind, "hostile": st.hostile,
                 "res": ra, "resb": rb, "va": va, "vb": vb,
-                "sa": sent_to_honest(&ja, &hostile_conns), "sb": sent_to_honest(&jb, &hostile_conns),
+                "sa": sent_to_honest(&ja, &hostile_conns, w), "sb": sent_to_honest(&jb, &hostile_conns, w),
                 "pa": [a.f.pending(Queue::Verification, HONEST), a.f.pending(Queue::Consensus, HONEST), a.f.pending(Queue::Router, HONEST)],
                 "pb": [b.f.pending(Queue::Verification, HONEST), b.f.pending(Queue::Consensus, HONEST), b.f.pending(Queue::Router, HONEST)]}));
             if dead {
